@@ -22,6 +22,22 @@ class BudgetExceeded(Exception):
     pass
 
 
+def _bool_and_str_keys(h, depth=0):
+    """does some Categorize in this tree hold a boolean category next to its string form (True and 'True')?"""
+    if h is None or depth > 12:
+        return False
+    if getattr(h, "name", "") == "Categorize":
+        keys = list(h.bins)
+        strs = {k for k in keys if isinstance(k, str)}
+        if any(not isinstance(k, str) and str(k) in strs for k in keys):
+            return True
+    try:
+        kids = list(h.children)
+    except Exception:
+        return False
+    return any(_bool_and_str_keys(c, depth + 1) for c in kids)
+
+
 def _same_spec(a, b):
     """bin specifications compared value by value (dicts, lists of dicts, numpy scalars)"""
     if isinstance(a, dict) and isinstance(b, dict):
@@ -395,6 +411,9 @@ class Recorder:
                 self.slot_pi[op["t"]] = self.slot_pi[op["a"]]
             else:
                 self.slot_pi.pop(op["t"], None)
+        if kind in ("Add", "Combine", "IAdd"):
+            tgt = self.objs.get(op["t"] if kind != "IAdd" else op["a"])
+            extra["boolstr"] = bool(out == "ok" and _bool_and_str_keys(tgt))
         if kind == "FillNumpy":
             extra["inputs_unchanged"] = arg["data"].tobytes() == arg["before"] and (
                 "wb" not in arg or arg["w"].tobytes() == arg["wb"])
